@@ -15,6 +15,9 @@
      S  lock; flag=1; signal; unlock          B  same with broadcast
      S' lock; flag=1; unlock; signal          B' same with broadcast
      s  lock; signal; unlock  (flag stays 0: a wake-up that finds the condition false)
+     F  lock; flag=1; unlock  (no wake-up)
+     Sr / Br  rlock; signal / broadcast; runlock  (a wake-up issued inside a READER section, so
+        that a writer-mode waiter is transferred to the mutex queue while readers come and go)
      N  nsync_note_notify (fresh note)
      L  lock; write section; unlock           R  rlock; read section; runlock
      @k wait (client-level) until k waiters have announced, under the mutex, that
@@ -72,7 +75,7 @@ static int cv_setup (const char *program) {
 			if (o[1] == 'n' && o[2] != 0 && o[2] != 'd' && o[2] != 'p') return -1;
 			if (o[1] == 'n' && o[2] != 0 && o[3] != 0) return -1;
 			waiters++;
-		} else if (!strcmp (o, "S") || !strcmp (o, "B") || !strcmp (o, "S'") || !strcmp (o, "B'") || !strcmp (o, "s") || !strcmp (o, "L") || !strcmp (o, "R")) {
+		} else if (!strcmp (o, "S") || !strcmp (o, "B") || !strcmp (o, "S'") || !strcmp (o, "B'") || !strcmp (o, "s") || !strcmp (o, "L") || !strcmp (o, "R") || !strcmp (o, "F") || !strcmp (o, "Sr") || !strcmp (o, "Br")) {
 		} else if (!strcmp (o, "dm") || !strcmp (o, "dM") || !strcmp (o, "dc") || !strcmp (o, "dC")) {
 		} else if (!strcmp (o, "N")) notifier = 1;
 		else if (o[0] == '@' && o[1] >= '1' && o[1] <= '9' && o[2] == 0) { if (o[1] - '0' > SLOTS) return -1; }
@@ -192,7 +195,17 @@ static void cv_thread (int me) {
 		const char *o = h_op[me][k];
 		int r = 0;
 		if (is_waiter (o)) r = do_wait (me * H_MAXOPS + k, o);
-		else if (o[0] == 'S' || o[0] == 'B' || o[0] == 's') {
+		else if ((o[0] == 'S' || o[0] == 'B') && o[1] == 'r') {
+			int w;
+			nsync_mu_rlock (&mu); h_enter (&mu, 0, "nsync_mu_rlock");
+			w = new_wake (o[0] == 'B');
+			mc_point ();
+			if (o[0] == 'B') nsync_cv_broadcast (&cv); else nsync_cv_signal (&cv);
+			wake_issued (w);
+			h_leave (&mu, 0); nsync_mu_runlock (&mu);
+		} else if (o[0] == 'F') {
+			nsync_mu_lock (&mu); h_enter (&mu, 1, "nsync_mu_lock"); flag = 1; h_leave (&mu, 1); nsync_mu_unlock (&mu);
+		} else if (o[0] == 'S' || o[0] == 'B' || o[0] == 's') {
 			int b = (o[0] == 'B'), after = (o[1] == '\''), w;
 			nsync_mu_lock (&mu); h_enter (&mu, 1, "nsync_mu_lock");
 			w = new_wake (b);
